@@ -95,6 +95,99 @@ def radix_and_exponent(rep, F, rule='R-TABLE'):
 
 
 
+def head_of_numeral(rep, F, rule='HEAD-OF-NUMERAL'):
+    """BigInt's text parser accepts a sign at the head of the text it is given.  from_str_radix hands it either a slice of
+    the numeral or a buffer built by concatenating slices.  Only the numeral's own head may carry the sign: a later slice
+    (the fraction digits after the '.') becomes the head of the buffer whenever every slice before it is empty, so unless
+    the path establishes that the earlier slice is non-empty, or inspects the start of the later slice, a sign after the
+    point is accepted ('.+5' read as 0.05, the sign even counted as a fraction digit)"""
+    fns = [f for f in F.real_fns() if not f.is_closure and f.trait == 'num_traits::Num' and f.self_ty == 'BigDecimal' and f.item == 'from_str_radix']
+    n = 0
+    for fn in fns:
+        try:
+            pe = TB.PathEnum(F, fn, max_paths=400)
+            paths = pe.run()
+        except TB.Undecided as e:
+            rep.undecided(rule, fn.key + ':sign-only-at-head', str(e), fn.where())
+            continue
+        n += 1
+        bad, okc, und = [], 0, []
+        for (atoms, out), eff in zip(paths, pe.effects):
+            o = TB.deref(out)
+            if not (o[0] == 'adt' and o[2] == 'Ok'):
+                continue
+            pieces = []
+            handed = None
+            for callee, args in eff:
+                c = TB._plain(callee)
+                if c.endswith('String::push_str') and len(args) == 2:
+                    pieces.append(TB.strip_refs(args[1]))
+                elif re.search(r'BigInt::from_str_radix$|BigInt as .*Num>::from_str_radix$|Num::from_str_radix$', c) and args:
+                    handed = TB.strip_refs(args[0])
+            if handed is None:
+                und.append('no call to the integer text parser on an Ok path')
+                continue
+            if not pieces:
+                pieces = [handed]
+
+            def classify(t):
+                """'prefix' (starts at the numeral's head), 'inner' (starts later), None"""
+                t = TB.strip_refs(t)
+                if t == TB.T('param', 1):
+                    return 'prefix'
+                if t[0] == 'call' and re.search(r'Index::index$', TB._plain(t[1])) and len(t[2]) == 2:
+                    base = classify(t[2][0])
+                    r = TB.strip_refs(t[2][1])
+                    if base is None or r[0] != 'adt':
+                        return None
+                    if r[2] in ('RangeTo', 'RangeToInclusive', 'RangeFull'):
+                        return base
+                    if r[2] in ('RangeFrom', 'Range'):
+                        return 'inner'
+                    return None
+                if t[0] == 'field' and TB.strip_refs(t[1])[0] == 'call' and re.search(r'str::split_at$|split_at$', TB._plain(TB.strip_refs(t[1])[1])):
+                    base = classify(TB.strip_refs(t[1])[2][0])
+                    return base if t[2] == '0' else ('inner' if base else None)
+                return None
+
+            kinds = [classify(p) for p in pieces]
+            if None in kinds:
+                und.append('piece of the integer text not recognised: %s' % TB.show(pieces[kinds.index(None)])[:80])
+                continue
+            if kinds[0] != 'prefix':
+                bad.append('the first piece handed to the integer parser is not the head of the numeral: %s' % TB.show(pieces[0])[:80])
+                continue
+            for i in range(1, len(pieces)):
+                if kinds[i] != 'inner':
+                    continue
+                later, earlier = pieces[i], pieces[:i]
+                guarded = False
+                for a, c in atoms:
+                    a = TB.strip_refs(a)
+                    if TB.mentions(a, later) and not any(x[0] == 'call' and re.search(r'checked_sub$|from_str_radix$|Iterator::count$', TB._plain(x[1])) for x in TB.subterms(a)):
+                        guarded = True        # the path inspects the later slice itself (starts_with, first char, ...)
+                    if any(a[0] == 'call' and re.search(r'is_empty$', TB._plain(a[1])) and TB.strip_refs(a[2][0]) == e for e in earlier):
+                        guarded = True
+                    if a[0] == 'bin' and a[1] in ('Eq', 'Ne', 'Gt', 'Lt', 'Ge', 'Le') and TB.T('const', 0) in (a[2], a[3]):
+                        other = a[3] if a[2] == TB.T('const', 0) else a[2]
+                        if any(TB.mentions(e, other) for e in earlier):
+                            guarded = True    # the split position is compared with 0
+                if guarded:
+                    okc += 1
+                else:
+                    bad.append('the slice %s follows slices that may all be empty and is never inspected: a leading sign in it is accepted by the integer parser' % TB.show(later)[:70])
+            if len(pieces) == 1:
+                okc += 1
+        key = fn.key + ':sign-only-at-head'
+        if bad:
+            rep.violation(rule, key, bad[0], fn.where())
+        elif und:
+            rep.undecided(rule, key, und[0], fn.where())
+        else:
+            rep.ok(rule, key, '%d Ok path(s): the text handed to the integer parser starts at the numeral\'s head, and every later slice is inspected or preceded by a non-empty one' % okc, fn.where())
+    return n
+
+
 TEXT_PARSER = re.compile(r'(BigInt|BigUint)::(parse_bytes|from_str_radix|from_radix_[bl]e)$|num_traits::Num::from_str_radix$|<num_bigint::(BigInt|BigUint) as .*(FromStr>::from_str|Num>::from_str_radix)$|str::FromStr::from_str$|str::<impl str>::parse$|core::num::dec2flt|f(32|64)::from_str')
 
 
@@ -153,7 +246,7 @@ def run(ctx):
     rep.explanation = ('Static MIR analysis. R-PANIC with entries Num::from_str_radix, FromStr::from_str, parse_bytes (debug-profile facts).  '
                        'R-TABLE on from_str_radix: every Ok(..) return lies on the radix == 10 edge, and the scale handed to the constructor is computed through checked operations and widening casts only. '
                        'GATEWAY (who-may-call): FromStr::from_str and parse_bytes reach an integer/float text parser only through from_str_radix, so the radix check cannot be bypassed. '
-                       'Does NOT decide the accepted grammar or the denoted value.')
+                       'HEAD-OF-NUMERAL: the only place where the delegated integer parser may see a sign is the head of the numeral (a sign directly after the point is not silently accepted). Does NOT decide the rest of the accepted grammar or the denoted value.')
     F = ctx.facts('default', 'dbg')
     ents = common.parse_entries(F)
     rep.entries['parser entry points'] = [e.key for e in ents]
@@ -164,6 +257,8 @@ def run(ctx):
     n2 = radix_and_exponent(rep, Fr)
     rep.floor('radix/exponent clauses', n2, 2)
     n3 = gateway(rep, Fr)
+    n4 = head_of_numeral(rep, Fr)
+    rep.floor('head-of-numeral clause', n4, 1)
     rep.floor('parse entry points checked against the gateway', n3, 2)
     rep.trust(common.TRUST_STD)
     rep.trust('BigInt::from_str_radix panics only for a radix outside 2..=36')
